@@ -82,6 +82,8 @@ type c06Case struct {
 	Cache    string   `json:"cache"` // history of the UID at the server: none | idle | busy (C07)
 	Admin    bool     `json:"admin"` // server configuration (C07): an AdminUID is configured
 	NB       int      `json:"nb"`    // number of configured BypassUID entries
+	Tick     bool     `json:"tick"`  // a usage-upload tick has happened since the authorisation was withdrawn (C07)
+	K        int      `json:"k"`     // Scope "multi" (C06): connections of one session arriving together
 	Probe    string   `json:"probe"` // which UID the packet names: std | zero | ones | bypass | admin | variant | random
 	Tampers  []string `json:"tampers"`
 	Verdict  string   `json:"verdict"`
@@ -195,6 +197,56 @@ func c06FirstPacketLen(b []byte) int {
 	return 0
 }
 
+// c06ParkManager is the real user manager; when armed for a UID, AuthoriseNewSession waits until k calls for that
+// UID are in flight or a timeout passes, and then asks the real manager.  It widens the window between "the session
+// is not in the table" and "the session is registered" without touching Cloak: if that window is one critical
+// section (as it must be) only one call ever arrives and the timeout ends the wait.
+type c06ParkManager struct {
+	usermanager.UserManager
+	mu      sync.Mutex
+	uid     []byte
+	k       int
+	arrived int
+	maxSeen int
+	ch      chan struct{}
+	timeout time.Duration
+}
+
+func (m *c06ParkManager) arm(uid []byte, k int, timeout time.Duration) {
+	m.mu.Lock()
+	m.uid, m.k, m.arrived, m.maxSeen, m.ch, m.timeout = append([]byte{}, uid...), k, 0, 0, make(chan struct{}), timeout
+	m.mu.Unlock()
+}
+
+func (m *c06ParkManager) disarm() int {
+	m.mu.Lock()
+	defer m.mu.Unlock()
+	m.uid = nil
+	return m.maxSeen
+}
+
+func (m *c06ParkManager) AuthoriseNewSession(uid []byte, ai usermanager.AuthorisationInfo) error {
+	m.mu.Lock()
+	if m.uid != nil && len(uid) >= 16 && bytes.Equal(uid[:16], m.uid) {
+		m.arrived++
+		if m.arrived > m.maxSeen {
+			m.maxSeen = m.arrived
+		}
+		if m.arrived == m.k {
+			close(m.ch)
+		}
+		ch, to := m.ch, m.timeout
+		m.mu.Unlock()
+		select {
+		case <-ch:
+		case <-time.After(to):
+		}
+	} else {
+		m.mu.Unlock()
+	}
+	return m.UserManager.AuthoriseNewSession(uid, ai)
+}
+
 // ------------------------------------------------------------------------------------ rig
 
 type c06Rig struct {
@@ -213,6 +265,7 @@ type c06Rig struct {
 	redirCh chan *c06RedirRec
 	proxy   *c06ProxyDialer
 	mgr     usermanager.UserManager
+	park    *c06ParkManager // what the panel talks to: the real manager, able to hold AuthoriseNewSession
 	uids    map[string][]byte // label -> UID
 	dbPath  string
 	stuck   atomic.Int64
@@ -293,6 +346,7 @@ func c06NewRig(id int, rng *kit.Rng, dir string) (*c06Rig, error) {
 		return nil, err
 	}
 	r.mgr = mgr
+	r.park = &c06ParkManager{UserManager: mgr}
 	i64, i32 := usermanager.JustInt64, usermanager.JustInt32
 	far := r.base.Add(10 * 365 * 24 * time.Hour).Unix()
 	seed := func(label string, upC, downC, expiry int64) error {
@@ -332,7 +386,7 @@ func c06NewRig(id int, rng *kit.Rng, dir string) (*c06Rig, error) {
 		RedirPort:   "80",
 		RedirDialer: r.redirL,
 		UsedRandom:  map[[32]byte]int64{},
-		Panel:       MakeUserPanel(mgr),
+		Panel:       MakeUserPanel(r.park),
 	}
 	// as InitState does: the configured bypass UIDs and the admin UID are bypass users
 	for _, l := range []string{"bypass:u1", "bypass:u2", "admin"} {
